@@ -536,6 +536,11 @@ def encoderFallback (tk : Tokenizer Score) : List Fallback :=
   | .unigram c => c.fallback
   | .wordpiece c => c.fallback
 
+def bytesSubseq : Bytes → Bytes → Bool
+  | [], _ => true
+  | _ :: _, [] => false
+  | x :: xs, y :: ys => if x == y then bytesSubseq xs ys else bytesSubseq (x :: xs) ys
+
 /-- What the encoder input must spell (C02): ordinary parts' texts (plus the end-of-word suffix for BPE)
     and special parts' texts, in order. -/
 def expectedSpelling (tk : Tokenizer Score) (ps : List TextPart) : Bytes :=
@@ -644,9 +649,17 @@ def encVerdict (which : String) (tk : Tokenizer Score) (ext : Ext) (t : Bytes) (
         else if (match unk with | some u => ids.contains u | none => false) then
           (unknownAlignment tk ps ids).getD "HOLDS-NA"
         else if fbHead == some .skip || fbHead == some .bytes then
-          -- still judged when nothing was skipped / byte-encoded: spelling equality is sufficient evidence
+          -- still judged when nothing was skipped / byte-encoded: spelling equality is sufficient evidence.
+          -- Byte fallback keeps every byte in text order: without `Skip` anywhere in the list the ids spell the
+          -- text; with `Skip` further down they spell a subsequence of it.
           (match spelledBy tk ids with
-            | some b => if b == expectedSpelling tk ps then "HOLDS" else "HOLDS-NA"
+            | some b =>
+              let want := expectedSpelling tk ps
+              if b == want then "HOLDS"
+              else if fbHead == some .bytes then
+                (if (encoderFallback tk).contains .skip then (if bytesSubseq b want then "HOLDS-NA" else "FAILS byte-fallback-misspells")
+                 else "FAILS byte-fallback-misspells")
+              else "HOLDS-NA"
             | none => "FAILS unknown-id-in-output")
         else
           (match spelledBy tk ids with
